@@ -30,13 +30,17 @@ import (
 	"github.com/uber/kraken/lib/hashring"
 	"github.com/uber/kraken/lib/hostlist"
 	"github.com/uber/kraken/lib/store"
+	"github.com/uber/kraken/lib/store/metadata"
 	"github.com/uber/kraken/lib/torrent/scheduler"
 	"github.com/uber/kraken/lib/torrent/scheduler/conn"
 	"github.com/uber/kraken/lib/torrent/storage"
 	"github.com/uber/kraken/lib/torrent/storage/agentstorage"
+	"github.com/uber/kraken/lib/torrent/storage/originstorage"
 	"github.com/uber/kraken/lib/torrent/storage/piecereader"
 	"github.com/uber/kraken/tracker/announceclient"
 	"github.com/uber/kraken/tracker/metainfoclient"
+	"github.com/uber/kraken/tracker/peerhandoutpolicy"
+	"github.com/uber/kraken/tracker/peerstore"
 	"github.com/uber/kraken/tracker/trackerserver"
 	"github.com/uber/kraken/utils/log"
 
@@ -62,6 +66,7 @@ type params struct {
 	maxc     map[string]int
 	corrupt  []int          // pieces the corrupting peer flips ([] = no corrupting peer)
 	hasX     bool
+	origin   bool           // the seeder is an ORIGIN peer (originstorage over a CAStore, handed out by the tracker's origin store)
 	order    []string       // join order
 	delay    map[string]int // ms before a peer joins (after the previous one)
 	leaver   string         // "" = nobody leaves
@@ -157,6 +162,7 @@ func gen(t int, rng *rand.Rand) params {
 	for _, q := range p.peers {
 		p.maxc[q] = 1 + rng.Intn(4)
 	}
+	p.origin = rng.Intn(4) == 0
 	p.corrupt = []int{}
 	if p.hasX {
 		all := rng.Intn(2) == 0
@@ -205,6 +211,7 @@ type peer struct {
 	name    string
 	pctx    core.PeerContext
 	cads    *store.CADownloadStore
+	cas     *store.CAStore
 	inner   storage.TorrentArchive
 	sched   scheduler.Scheduler
 	ac      announceclient.Client
@@ -238,6 +245,7 @@ func schedConfig(p params, name string) scheduler.Config {
 	cfg.ConnState.MaxOpenConnectionsPerTorrent = p.maxc[name]
 	cfg.ConnState.BlacklistDuration = 1500 * time.Millisecond
 	cfg.Dispatch.AgentPipelineLimit = p.pipe
+	cfg.Dispatch.OriginPipelineLimit = p.pipe
 	cfg.Dispatch.PieceRequestMinTimeout = 2 * time.Second
 	return cfg
 }
@@ -261,7 +269,20 @@ func swarm(p params, dir string) *result {
 	mic := metainfoclient.NewTestClient()
 	mic.Upload(mi)
 
-	tracker := httptest.NewServer(trackerserver.Fixture().Handler())
+	// tracker: the repo's in-memory fixture; with an origin seeder the same server wired with a harness origin store
+	// (the origin does not announce, the tracker learns it from its origin cluster) and the "completeness" handout policy
+	origins := &originList{}
+	ts := trackerserver.Fixture()
+	if p.origin {
+		pol, err := peerhandoutpolicy.NewPriorityPolicy(tally.NoopScope, "completeness")
+		if err != nil {
+			res.err = err
+			return res
+		}
+		ts = trackerserver.New(trackerserver.Config{AnnounceInterval: 250 * time.Millisecond}, tally.NoopScope, pol,
+			peerstore.NewTestStore(), origins, nil)
+	}
+	tracker := httptest.NewServer(ts.Handler())
 	defer tracker.Close()
 	trackerAddr := tracker.Listener.Addr().String()
 
@@ -288,6 +309,10 @@ func swarm(p params, dir string) *result {
 				pe.cads.Close()
 				pe.cads = nil
 			}
+			if pe.cas != nil {
+				pe.cas.Close()
+				pe.cas = nil
+			}
 		}
 		pmu.Unlock()
 	}
@@ -298,9 +323,63 @@ func swarm(p params, dir string) *result {
 		corrupt[i] = true
 	}
 
+	// start the peer's scheduler on a free localhost port, its torrent archive decorated by the recorder
+	start := func(pe *peer, origin bool) (*peer, error) {
+		name := pe.name
+		ra := &recArchive{TorrentArchive: pe.inner, r: r, self: name, blob: p.blob, plen: p.plen}
+		if name == "x1" {
+			ra.corrupt = corrupt
+		}
+		var lastErr error
+		for try := 0; try < 8; try++ {
+			port, err := freePort()
+			if err != nil {
+				lastErr = err
+				continue
+			}
+			pe.pctx = core.PeerContext{PeerID: core.PeerIDFixture(), Zone: "zone1", IP: "localhost", Port: port, Origin: origin}
+			nm.set(pe.pctx.PeerID, name)
+			if origin {
+				pe.ac = announceclient.Disabled()
+			} else {
+				pe.ac = announceclient.New(pe.pctx, hashring.NoopPassiveRing(hostlist.Fixture(trackerAddr)), nil)
+			}
+			s, err := scheduler.VerifC19NewStartedScheduler(schedConfig(p, name), ra, pe.pctx, pe.ac,
+				&recProducer{r: r, self: name, nm: nm, np: p.np})
+			if err == nil {
+				pe.sched = s
+				if origin {
+					origins.set(core.PeerInfoFromContext(pe.pctx, true))
+				}
+				return pe, nil
+			}
+			lastErr = err
+		}
+		return nil, fmt.Errorf("start scheduler %s: %v", name, lastErr)
+	}
+	// origin seeder: the blob and its metainfo are in the cache of a CAStore, served through originstorage
+	buildOrigin := func(pe *peer) (*peer, error) {
+		cas, err := store.NewCAStore(store.CAStoreConfig{
+			UploadDir: fmt.Sprintf("%s/%s/upload", dir, pe.name), CacheDir: fmt.Sprintf("%s/%s/cache", dir, pe.name)}, tally.NoopScope)
+		if err != nil {
+			return nil, err
+		}
+		pe.cas = cas
+		if err := cas.CreateCacheFile(d.Hex(), bytes.NewReader(p.blob)); err != nil {
+			return nil, err
+		}
+		if _, err := cas.SetCacheFileMetadata(d.Hex(), metadata.NewTorrentMeta(mi)); err != nil {
+			return nil, err
+		}
+		pe.inner = originstorage.NewTorrentArchive(cas, nil)
+		return start(pe, true)
+	}
 	// build one peer (not yet downloading)
 	build := func(name string) (*peer, error) {
 		pe := &peer{name: name, retc: make(chan error, 1), ret: "none"}
+		if name == "s1" && p.origin {
+			return buildOrigin(pe)
+		}
 		cads, err := store.NewCADownloadStore(store.CADownloadStoreConfig{
 			DownloadDir: fmt.Sprintf("%s/%s/download", dir, name), CacheDir: fmt.Sprintf("%s/%s/cache", dir, name)}, tally.NoopScope)
 		if err != nil {
@@ -325,29 +404,7 @@ func swarm(p params, dir string) *result {
 				return nil, errors.New("pre-populated torrent not complete")
 			}
 		}
-		ra := &recArchive{TorrentArchive: pe.inner, r: r, self: name, blob: p.blob, plen: p.plen}
-		if name == "x1" {
-			ra.corrupt = corrupt
-		}
-		var lastErr error
-		for try := 0; try < 8; try++ {
-			port, err := freePort()
-			if err != nil {
-				lastErr = err
-				continue
-			}
-			pe.pctx = core.PeerContext{PeerID: core.PeerIDFixture(), Zone: "zone1", IP: "localhost", Port: port}
-			nm.set(pe.pctx.PeerID, name)
-			pe.ac = announceclient.New(pe.pctx, hashring.NoopPassiveRing(hostlist.Fixture(trackerAddr)), nil)
-			s, err := scheduler.VerifC19NewStartedScheduler(schedConfig(p, name), ra, pe.pctx, pe.ac,
-				&recProducer{r: r, self: name, nm: nm, np: p.np})
-			if err == nil {
-				pe.sched = s
-				return pe, nil
-			}
-			lastErr = err
-		}
-		return nil, fmt.Errorf("start scheduler %s: %v", name, lastErr)
+		return start(pe, false)
 	}
 
 	classify := func(err error) string {
@@ -367,19 +424,20 @@ func swarm(p params, dir string) *result {
 	}
 
 	// the leaver is stopped after leaveAt accepted pieces or leaveMs after it started downloading
+	finished := false // set (under pmu) once every Download has returned: nobody leaves after that
 	leaveOnce := sync.Once{}
 	leave := func() {
 		leaveOnce.Do(func() {
 			go func() {
 				pmu.Lock()
 				pe := peers[p.leaver]
-				if pe == nil || pe.stopped {
+				if finished || pe == nil || pe.stopped {
 					pmu.Unlock()
 					return
 				}
 				pe.left, pe.stopped = true, true
+				r.log("Leave", "p", pe.name) // under pmu: ordered before the End records
 				pmu.Unlock()
-				r.log("Leave", "p", pe.name)
 				pe.sched.Stop()
 			}()
 		})
@@ -420,6 +478,9 @@ func swarm(p params, dir string) *result {
 			role = "corrupter"
 		}
 		r.log("Join", "p", name, "role", role)
+		if name == "s1" && p.origin {
+			continue // an origin serves what is in its cache; it never downloads and never announces
+		}
 		dl.Add(1)
 		go func(pe *peer) {
 			defer dl.Done()
@@ -461,6 +522,10 @@ func swarm(p params, dir string) *result {
 		return res
 	}
 
+	pmu.Lock()
+	finished = true
+	pmu.Unlock()
+
 	// end-state oracle (computed here, judged by the spec)
 	for _, name := range p.peers {
 		if name == "s1" || name == "x1" {
@@ -497,9 +562,33 @@ func emit(c *eng.Ctx, r *result) {
 		leaver = "none"
 	}
 	c.W.Reset(p.t, map[string]any{"np": p.np, "pipe": p.pipe, "peers": p.peers, "maxc": maxc, "corrupt": p.corrupt,
-		"size": len(p.blob), "plen": p.plen, "order": p.order, "leaver": leaver})
+		"size": len(p.blob), "plen": p.plen, "order": p.order, "leaver": leaver, "origin": p.origin})
 	for _, e := range r.recs {
 		c.W.Ev(e.ev, e.kv...)
 	}
 	c.Inc("events", len(r.recs))
+}
+
+// originList is the tracker's originstore.Store: the origin seeder once it is up.
+type originList struct {
+	mu sync.Mutex
+	l  []*core.PeerInfo
+}
+
+func (o *originList) set(pi *core.PeerInfo) {
+	o.mu.Lock()
+	o.l = []*core.PeerInfo{pi}
+	o.mu.Unlock()
+}
+
+// GetOrigins implements originstore.Store.
+func (o *originList) GetOrigins(core.Digest) ([]*core.PeerInfo, error) {
+	o.mu.Lock()
+	defer o.mu.Unlock()
+	out := make([]*core.PeerInfo, len(o.l))
+	for i, pi := range o.l {
+		c := *pi
+		out[i] = &c
+	}
+	return out, nil
 }
